@@ -50,7 +50,7 @@ def run_shard(spec, M):
         if reused is not None:
             reused.spec = spec
         for i in range(spec["start"], spec["start"] + spec["n"]):
-            kw = {"size": "huge" if i % 30 == 0 else ("small" if i % 2 else "medium"), "special": 0.35, "deep": True, "rare": False} if fam == "boundaries" else {}
+            kw = {"size": "huge" if i % 30 == 0 else ("small" if i % 2 else "medium"), "special": 0.35, "deep": True, "rare": False} if fam == "boundaries" else {"allow_default": True}
             R = doccheck.make_doc(seed, fam, i, **kw)
             case = {"kind": "doc", "family": fam, "index": i, "seed": seed, "text": R.text if len(R.text) < 20000 else R.text[:20000], "kw": kw}
             doccheck.check_doc(R, M, case, "C04", reused=reused)
